@@ -43,7 +43,7 @@ pub struct Case { pub rty: RTy, pub shape: Shape, pub cols: bool, pub cond: Cond
 
 /// value codes -> (is candidate-friendly?) entries per ring.  code 0..: units first, then non-units
 #[derive(Clone, Debug, PartialEq)]
-enum V { I(i64), Q(i64, i64), F(i32), P(Vec<i64>) }
+pub(crate) enum V { I(i64), Q(i64, i64), F(i32), P(Vec<i64>) }
 
 fn value(rty: RTy, code: u8) -> V {
     match rty {
@@ -55,6 +55,14 @@ fn value(rty: RTy, code: u8) -> V {
 }
 
 impl V {
+    /// reference value (Z, Q, F3, Q[H])
+    pub(crate) fn to_rv(&self) -> RV {
+        use num_rational::BigRational;
+        match self {
+            V::I(x) => RV::Z(bi(*x)), V::Q(a, b) => RV::Q(BigRational::new(bi(*a), bi(*b))), V::F(x) => RV::F(x.rem_euclid(3) as u64),
+            V::P(c) => { let mut c: Vec<BigRational> = c.iter().map(|x| BigRational::from_integer(bi(*x))).collect(); while c.last().map(|x| num_traits::Zero::is_zero(x)).unwrap_or(false) { c.pop(); } RV::PQ(c) }
+        }
+    }
     fn is_pm_one(&self) -> bool { match self { V::I(x) => x.abs() == 1, V::Q(a, b) => a.abs() == 1 && *b == 1, V::F(x) => *x == 1 || *x == 2, V::P(c) => c.len() == 1 && c[0].abs() == 1 } }
     fn is_unit(&self) -> bool { match self { V::I(x) => x.abs() == 1, V::Q(a, _) => *a != 0, V::F(x) => *x != 0, V::P(c) => c.len() == 1 && c[0].abs() == 1 } }
     /// the library's documented computational weight for Z and Q; None where the property's "bounded weight" has no independent definition
@@ -69,9 +77,9 @@ impl V {
     fn satisfies(&self, c: Cond) -> bool { match c { Cond::One => self.is_pm_one(), Cond::AnyUnit => self.is_unit(), Cond::Weight(w) => self.is_unit() && self.weight().map(|x| x <= w as f64).unwrap_or(true) } }
 }
 
-type Entries = std::collections::BTreeMap<(usize, usize), V>;
+pub(crate) type Entries = std::collections::BTreeMap<(usize, usize), V>;
 
-fn build_entries(c: &Case, tier: Tier) -> (usize, usize, Entries) {
+pub(crate) fn build_entries(c: &Case, tier: Tier) -> (usize, usize, Entries) {
     let mx = tier.pick(60usize, 250usize);
     let mut e = Entries::new();
     let mut put = |e: &mut Entries, i: usize, j: usize, v: V| { let nv = match e.get(&(i, j)) { Some(o) => o.add(&v), None => v }; if nv.is_zero() { e.remove(&(i, j)); } else { e.insert((i, j), nv); } };
